@@ -22,6 +22,13 @@ class AnalysisError(Exception):
     pass and never a violation."""
 
 
+def require_idiom(ok, tag):
+    """for obligations that are decided by recognising a source idiom: when the idiom is not found the honest answer is
+    'cannot decide' (ANALYSIS-ERROR, exit 2), not a violation - a behaviour-preserving rewrite must never be accused"""
+    if not ok:
+        raise AnalysisError('source idiom behind obligation %s is not recognised any more: cannot decide it on this tree' % tag)
+
+
 class Ob(object):
     """One obligation instance examined by a rule."""
     __slots__ = ('rule', 'key', 'ok', 'where', 'msg', 'detail', 'nontrivial', 'note')
